@@ -11,6 +11,7 @@
 //       queueBytesOnMemory; q.Lock()/q.Unlock() -> vLock(&q.Mutex)/vUnlock(&q.Mutex)
 //   R4  in bufferList.pop: the plain read `*b.size` -> vPlainLoadI32("*b.size", b.size)
 //   R5  gopool.Go(f) -> vGo(f)   (stream.go)
+//   R7  syscall.RawSyscall(SYS_READ,..) / syscall.Syscall(SYS_WRITE|SYS_WRITEV,..) -> vSysRead/vSysWrite/vSysWritev(..)
 //   R6  in Session.wakeUpPeer / Session.hotRestart / Session.send: s.writeEventData(..) is preceded by
 //       vYield("writeEvent")
 // With no scheduler installed every v* helper is a pass-through.
@@ -110,6 +111,15 @@ func main() {
 								// R1
 								edits = append(edits, edit{off(se.Pos()), off(se.End()), "vAtomic" + se.Sel.Name})
 								edits = append(edits, edit{off(x.Lparen) + 1, off(x.Lparen) + 1, quote(fn+":"+norm(text(x))) + ", "})
+							}
+							if id.Name == "syscall" && (se.Sel.Name == "RawSyscall" || se.Sel.Name == "Syscall") && len(x.Args) == 4 {
+								// R7: the three raw IO syscalls of the event connection go through a shim
+								if a0, ok := x.Args[0].(*ast.SelectorExpr); ok {
+									shim := map[string]string{"SYS_READ": "vSysRead", "SYS_WRITE": "vSysWrite", "SYS_WRITEV": "vSysWritev"}[a0.Sel.Name]
+									if shim != "" {
+										edits = append(edits, edit{off(x.Pos()), off(x.Args[1].Pos()), shim + "("})
+									}
+								}
 							}
 							if id.Name == "gopool" && se.Sel.Name == "Go" {
 								edits = append(edits, edit{off(se.Pos()), off(se.End()), "vGo"}) // R5
